@@ -141,6 +141,8 @@ func (h *MultiHandler) canAccept(msg *Message) bool {
 func (h *MultiHandler) Accept(msg *Message) {
 	h.mtx.Lock()
 	defer h.mtx.Unlock()
+	// a malformed message must never crash the caller: a panic while it is processed ends the session.
+	defer h.abortOnPanic()
 
 	// exit early if the message is bad, or if we are already done
 	if !h.canAccept(msg) || h.err != nil || h.result != nil || h.duplicate(msg) {
@@ -350,6 +352,17 @@ func (h *MultiHandler) abort(err error, culprits ...party.ID) {
 
 	}
 	close(h.out)
+}
+
+// abortOnPanic must be deferred while holding h.mtx. It turns a panic into an abort of the
+// protocol, unless the protocol has already finished.
+func (h *MultiHandler) abortOnPanic() {
+	if r := recover(); r != nil {
+		if h.err != nil || h.result != nil {
+			return
+		}
+		h.abort(fmt.Errorf("panic while processing message: %v", r))
+	}
 }
 
 // Stop cancels the current execution of the protocol, and alerts the other users.
